@@ -5,9 +5,11 @@
 //!
 //!   replay run    <family> <case>            exit 0 = all oracles hold, 1 = some oracle fails (prints FAIL lines)
 //!   replay search <family> <prop> <seed> <budget>   prints `FOUND <case>` + FAIL lines, or `NOTFOUND`
+mod client_family;
 mod conv_family;
 mod fmt_family;
 mod io_family;
+mod queue_family;
 mod rng;
 
 fn main() {
@@ -23,6 +25,8 @@ fn main() {
                 "io" => io_family::run_case(&args[3]),
                 "conv" => conv_family::run_case(&args[3]),
                 "fmt" => fmt_family::run_case(&args[3]),
+                "client" => client_family::run_case(&args[3]),
+                "queue" => queue_family::run_case(&args[3]),
                 _ => {
                     eprintln!("unknown family {}", family);
                     std::process::exit(2);
@@ -52,6 +56,8 @@ fn main() {
                 "io" => io_family::search(prop, seed, budget),
                 "conv" => conv_family::search(prop, seed, budget),
                 "fmt" => fmt_family::search(prop, seed, budget),
+                "client" => client_family::search(prop, seed, budget),
+                "queue" => queue_family::search(prop, seed, budget),
                 _ => {
                     eprintln!("unknown family {}", family);
                     std::process::exit(2);
